@@ -7,6 +7,7 @@
 #include "vf.h"
 #include "guard.h"
 #include "tracked.h"
+#include "sopfam.h"
 #include <algorithm>
 #include <map>
 #include <memory>
@@ -36,7 +37,6 @@ alignas(64) char _heap_start[ARENA]; // the arena symbol lin_malloc.cpp refers t
 static char *const A0 = _heap_start;
 static size_t g_high = 0; // high-water mark of the break since the last wipe (bytes)
 
-static inline uint8_t pat(uint32_t seed, size_t i) { return (uint8_t)(seed * 151u + (uint32_t)i * 13u + ((uint32_t)i >> 8) * 7u + 0x3Du); }
 
 struct Block
 {
@@ -578,7 +578,29 @@ VF_SUITE(heap_random, hrand_count, hrand_run)
 // ============================================================================================
 // pools
 // ============================================================================================
-static const size_t PSIZES[5] = {8, 16, 24, 40, 64};
+// Raw pools (pool_head, igris::pool) take the cell size as a parameter. The pool keeps its free-list link
+// (one pointer) inside every free cell, so a cell must be able to hold a pointer and cells must stay
+// pointer-aligned: cell size >= sizeof(void*) and a multiple of alignof(void*). That is the contract the typed
+// wrapper static_object_pool establishes for any T (elsize()/elalign()); element types smaller than a pointer
+// or with odd sizes are therefore driven through static_object_pool (sop_family below), and the raw pools
+// through the cell sizes such types round up to: (cell size, zone alignment) pairs.
+struct PGrid
+{
+    size_t cell, align;
+};
+static const PGrid PGRID[] = {{8, 8}, {16, 8}, {16, 16}, {24, 8}, {32, 16}, {40, 8}, {48, 16}, {56, 8}, {64, 8}, {72, 8}};
+enum
+{
+    NPGRID = sizeof PGRID / sizeof *PGRID
+};
+// heap block of exactly `size` bytes aligned to `align` (size is a multiple of align): red zone right behind
+struct AlignedZone
+{
+    char *p;
+    AlignedZone(size_t align, size_t size) : p((char *)aligned_alloc(align, size)) { memset(p, 0xA5, size); }
+    ~AlignedZone() { free(p); }
+    AlignedZone(const AlignedZone &) = delete;
+};
 
 // common driver over an abstract pool: alloc() / free(p) / avail()
 struct PoolModel
@@ -586,6 +608,7 @@ struct PoolModel
     char *zone;
     size_t elemsz, cap;
     const char *api;
+    size_t zalign;                   // alignment of the zone; elemsz is a multiple of it, so every block must have it too
     std::map<char *, uint32_t> live; // cell -> pattern seed
     std::vector<char *> order;       // allocation order
     uint32_t next_seed = 1;
@@ -628,7 +651,9 @@ struct PoolModel
         if ((size_t)(p - zone) % elemsz)
             bad("not-cell-aligned", "block at zone+%ld, cell size %zu", (long)(p - zone), elemsz);
         if ((uintptr_t)p % alignof(void *))
-            bad("misaligned", "block at %p", (void *)p);
+            bad("misaligned-for-link", "block at zone+%ld cannot hold the free-list link", (long)(p - zone));
+        if ((uintptr_t)p % zalign)
+            bad("misaligned", "block at zone+%ld is not aligned to %zu (zone and cell size are)", (long)(p - zone), zalign);
         if (live.count(p))
             bad("overlap", "cell %ld handed out while live", (long)(p - zone) / (long)elemsz);
         VF_OK("pool: block inside zone, cell-aligned, not live");
@@ -707,16 +732,16 @@ struct CxxPool
     }
 };
 
-template <class P> static void pool_case(size_t elemsz, size_t cap, int flavour, uint64_t idx)
+template <class P> static void pool_case(size_t elemsz, size_t zalign, size_t cap, int flavour, uint64_t idx)
 {
     char cls[80];
     snprintf(cls, sizeof cls, "%s:elemsz=%zu", P::name(), elemsz);
     vf::cls(cls);
     vf::Rng rg(vf::seed(), 0x9001, idx);
-    vf::Exact zone(nullptr, elemsz * cap, 0, idx & 1); // exact: one byte past the last cell is red zone
+    AlignedZone zone(zalign, elemsz * cap); // exact: one byte past the last cell is red zone
     P pool;
     pool.init(zone.p, elemsz * cap, elemsz);
-    PoolModel m{(char *)zone.p, elemsz, cap, P::name()};
+    PoolModel m{(char *)zone.p, elemsz, cap, P::name(), zalign};
     auto counts = [&](const char *when) {
         size_t a = pool.avail();
         if (a != cap - m.live.size())
@@ -775,7 +800,7 @@ template <class P> static void pool_case(size_t elemsz, size_t cap, int flavour,
 }
 static unsigned pool_max_cap() { return vf::thorough() ? 32 : 16; }
 static uint64_t pool_reps() { return vf::thorough() ? 20 : 1; }
-static uint64_t pool_count() { return 5ull * pool_max_cap() * 3 * 2 * pool_reps(); }
+static uint64_t pool_count() { return (uint64_t)NPGRID * pool_max_cap() * 3 * 2 * pool_reps(); }
 static void pool_run(uint64_t idx)
 {
     uint64_t i = idx;
@@ -783,13 +808,13 @@ static void pool_run(uint64_t idx)
     i /= 2;
     int flavour = i % 3;
     i /= 3;
-    size_t elemsz = PSIZES[i % 5];
-    i /= 5;
+    const PGrid &g = PGRID[i % NPGRID];
+    i /= NPGRID;
     size_t cap = 1 + i % pool_max_cap();
     if (api == 0)
-        pool_case<CPool>(elemsz, cap, flavour, idx);
+        pool_case<CPool>(g.cell, g.align, cap, flavour, idx);
     else
-        pool_case<CxxPool>(elemsz, cap, flavour, idx);
+        pool_case<CxxPool>(g.cell, g.align, cap, flavour, idx);
 }
 VF_SUITE(pools, pool_count, pool_run)
 
@@ -937,6 +962,147 @@ static void sop_run(uint64_t idx)
 }
 VF_SUITE(static_object_pool, sop_count, sop_run)
 
+// ---- static_object_pool<T, N> over a family of element types: every (size, alignment) with size in
+// {1,3,4,8,12,16,20,24,40}, alignment in {1,4,8,16} dividing the size; trivially constructible (Pod) and
+// lifetime-registered with a payload filling the whole object (Life); capacities {1,2,3,6,16}.
+static void sopfam_case(const SopEntry &e, int flavour, uint64_t idx)
+{
+    const size_t S = e.S, A = e.A, N = e.N;
+    char cls[96];
+    snprintf(cls, sizeof cls, "static_object_pool<%s<%zu,%zu>,%zu>", e.life ? "Life" : "Pod", S, A, N);
+    vf::cls(cls);
+    if (vf::verbose())
+        printf("%s free order %d\n", cls, flavour);
+    g_life.reset();
+    vf::Rng rg(vf::seed(), 0x50f, idx);
+    std::string trace;
+    std::map<char *, int> live; // block -> id (pattern seed)
+    std::vector<char *> order;
+    long creates_ok = 0, destroys = 0;
+    int next_id = 500;
+    {
+        std::unique_ptr<SopIface> pool(e.make());
+        char *zone = pool->storage();
+        size_t zbytes = pool->storage_bytes();
+        auto bad = [&](const char *clause, const char *fmt, auto... a) {
+            char key[160], det[400];
+            snprintf(key, sizeof key, "static_object_pool:%s", clause);
+            snprintf(det, sizeof det, fmt, a...);
+            vf::fail(key, "%s | sizeof(T)=%zu alignof(T)=%zu %s N=%zu live=%zu storage=%zu bytes | history:%s", det, S, A, e.life ? "non-trivial" : "trivial", N,
+                     live.size(), zbytes, trace.c_str());
+        };
+        auto counts = [&](const char *when) {
+            size_t av = pool->avail();
+            if (av != N - live.size())
+                bad("free-count", "%s: avail()=%zu, capacity-live=%zu", when, av, N - live.size());
+            VF_OK("static_object_pool family: avail == capacity - live after every op");
+            for (auto &kv : live)
+                for (size_t i = 0; i < S; i++)
+                    if ((uint8_t)kv.first[i] != pat((uint32_t)kv.second, i))
+                        bad("contents-changed", "%s: byte %zu of the live object at storage+%ld changed", when, i, (long)(kv.first - zone));
+            VF_OK("static_object_pool family: every live object keeps its fill pattern over its full size");
+            if (e.life)
+            {
+                if (g_life.errors)
+                    throw vf::CaseFailed();
+                if (g_life.ctor != creates_ok || g_life.dtor != destroys || g_life.live.size() != live.size())
+                    bad("object-count", "%s: %ld constructor / %ld destructor calls for %ld successful create / %ld destroy; %zu objects alive, %zu blocks live", when,
+                        g_life.ctor, g_life.dtor, creates_ok, destroys, g_life.live.size(), live.size());
+                VF_OK("static_object_pool family: one constructor call per create, one destructor call per destroy");
+            }
+        };
+        auto create = [&]() {
+            bool full = live.size() == N;
+            int id = next_id++;
+            trace += " c";
+            if (vf::verbose())
+                printf("  create (live=%zu)\n", live.size());
+            char *p = (char *)pool->create(id);
+            if (full)
+            {
+                if (p)
+                    bad("more-than-capacity", "object #%zu created in a pool of %zu at storage+%ld", live.size() + 1, N, (long)(p - zone));
+                VF_OK("static_object_pool family: exhausted pool answers null");
+            }
+            else
+            {
+                if (!p)
+                    bad("null-before-capacity", "null after %zu of %zu objects", live.size(), N);
+                creates_ok++;
+                if (p < zone || p + S > zone + zbytes)
+                    bad("outside-storage", "object [%+ld,%+ld) relative to the storage of %zu bytes", (long)(p - zone), (long)(p - zone + S), zbytes);
+                if ((uintptr_t)p % A)
+                    bad("misaligned", "object at storage+%ld (address %p) is not aligned to alignof(T)=%zu", (long)(p - zone), (void *)p, A);
+                if ((uintptr_t)p % alignof(void *))
+                    bad("misaligned-for-link", "block at storage+%ld (address %p) cannot hold the pool's free-list link when freed", (long)(p - zone), (void *)p);
+                auto it = live.lower_bound(p);
+                if (it != live.end() && (it->first == p || p + S > it->first))
+                    bad("overlap", "object [%+ld,%+ld) overlaps the live object at storage+%ld", (long)(p - zone), (long)(p - zone + S), (long)(it->first - zone));
+                if (it != live.begin() && std::prev(it)->first + S > p)
+                    bad("overlap", "object [%+ld,%+ld) overlaps the live object at storage+%ld", (long)(p - zone), (long)(p - zone + S),
+                        (long)(std::prev(it)->first - zone));
+                VF_OK("static_object_pool family: object inside storage, aligned for T and for the link, disjoint over sizeof(T)");
+                if (!e.life)
+                    for (size_t i = 0; i < S; i++)
+                        p[i] = (char)pat((uint32_t)id, i);
+                live[p] = id;
+                order.push_back(p);
+            }
+            counts(full ? "after a null create" : "after create");
+        };
+        auto destroy = [&]() {
+            size_t i = flavour == 0 ? order.size() - 1 : flavour == 1 ? 0 : rg.below(order.size());
+            char *p = order[i];
+            order.erase(order.begin() + i);
+            live.erase(p);
+            destroys++;
+            trace += " d";
+            if (vf::verbose())
+                printf("  destroy storage+%ld\n", (long)(p - zone));
+            pool->destroy(p);
+            counts("after destroy");
+        };
+        counts("after construction");
+        for (size_t i = 0; i < N + 2; i++)
+            create();
+        VF_OK("static_object_pool family: exactly capacity objects, then null");
+        for (int round = 0; round < 3; round++)
+        {
+            size_t k = live.empty() ? 0 : 1 + rg.below(live.size());
+            for (size_t i = 0; i < k; i++)
+                destroy();
+            for (size_t i = 0; i < k + 1; i++)
+                create();
+        }
+        for (int i = 0; i < 24; i++)
+            if (live.empty() || rg.chance(1, 2))
+                create();
+            else
+                destroy();
+        while (!live.empty())
+            destroy();
+        for (size_t i = 0; i < N + 1; i++) // everything free again: capacity objects once more, then null
+            create();
+        while (!live.empty())
+            destroy();
+        VF_OK("static_object_pool family: after destroying all, capacity objects can be created again");
+    }
+    if (e.life && (!g_life.live.empty() || g_life.ctor != g_life.dtor))
+        vf::fail("static_object_pool:object-count", "end of case: %zu objects never destroyed (%ld constructed, %ld destroyed) sizeof(T)=%zu N=%zu", g_life.live.size(),
+                 g_life.ctor, g_life.dtor, S, N);
+    VF_MAX("static_object_pool family: element types x capacities", NSOPFAM_POD + NSOPFAM_LIFE);
+    vf::count_case(vf::mix(vf::mix(S * 64 + A, N * 2 + e.life), vf::mix(flavour, vf::hash_bytes(trace.data(), trace.size()))), N > 1);
+    if (vf::want_sample() && S == 12 && A == 4 && N == 3 && e.life)
+        vf::sample("static_object_pool<Life<12,4>,3> order=%d:%s", flavour, trace.c_str());
+}
+static uint64_t sopfam_count() { return (uint64_t)(NSOPFAM_POD + NSOPFAM_LIFE) * 3 * (vf::thorough() ? 20 : 1); }
+static void sopfam_run(uint64_t idx)
+{
+    size_t k = (idx / 3) % (NSOPFAM_POD + NSOPFAM_LIFE);
+    sopfam_case(k < NSOPFAM_POD ? SOPFAM_POD[k] : SOPFAM_LIFE[k - NSOPFAM_POD], (int)(idx % 3), idx);
+}
+VF_SUITE(sop_family, sopfam_count, sopfam_run)
+
 extern "C" void vf_setup()
 {
     for (const char *c :
@@ -954,6 +1120,10 @@ extern "C" void vf_setup()
           "pool: after freeing all, capacity blocks are available again", "igris::pool: room() == capacity - live (also after a null get)",
           "igris::pool: cell_is_allocated / iteration == reference live set", "static_object_pool: avail == capacity - live, live objects intact",
           "static_object_pool: exhausted pool answers null without constructing", "static_object_pool: object inside storage, aligned, cell not live",
-          "static_object_pool: creates exactly capacity objects, then null", "static_object_pool: every created object destroyed exactly once"})
+          "static_object_pool: creates exactly capacity objects, then null", "static_object_pool: every created object destroyed exactly once",
+          "static_object_pool family: avail == capacity - live after every op", "static_object_pool family: every live object keeps its fill pattern over its full size",
+          "static_object_pool family: one constructor call per create, one destructor call per destroy", "static_object_pool family: exhausted pool answers null",
+          "static_object_pool family: object inside storage, aligned for T and for the link, disjoint over sizeof(T)",
+          "static_object_pool family: exactly capacity objects, then null", "static_object_pool family: after destroying all, capacity objects can be created again"})
         vf::require(c);
 }
